@@ -1116,6 +1116,11 @@ func (f *Frugal) validateConstant(constant *Constant) error {
 		}
 		return fmt.Errorf("Referenced constant %s not found", name)
 	} else if len(pieces) == 2 {
+		// A value of an enum defined in this file (Enum.VALUE)
+		if hasEnumValue(f.Enums, pieces[0], pieces[1]) {
+			return nil
+		}
+
 		// From an include
 		frugal := f
 		includeName := pieces[0]
@@ -1134,9 +1139,35 @@ func (f *Frugal) validateConstant(constant *Constant) error {
 		}
 		return fmt.Errorf("Referenced constant %s from include %s not found",
 			paramName, includeName)
+	} else if len(pieces) == 3 {
+		// A value of an enum defined in an include (include.Enum.VALUE)
+		frugalInclude, ok := f.ParsedIncludes[pieces[0]]
+		if !ok {
+			return fmt.Errorf("Include %s not found", pieces[0])
+		}
+		if hasEnumValue(frugalInclude.Enums, pieces[1], pieces[2]) {
+			return nil
+		}
+		return fmt.Errorf("Referenced enum value %s.%s from include %s not found",
+			pieces[1], pieces[2], pieces[0])
 	}
 
 	return fmt.Errorf("Invalid constant name %s", name)
+}
+
+// hasEnumValue indicates if the enum with the given name has the given value.
+func hasEnumValue(enums []*Enum, enumName, valueName string) bool {
+	for _, enum := range enums {
+		if enum.Name != enumName {
+			continue
+		}
+		for _, value := range enum.Values {
+			if value.Name == valueName {
+				return true
+			}
+		}
+	}
+	return false
 }
 
 func (f *Frugal) validateTypedefs() error {
